@@ -135,6 +135,33 @@ def suite_ops(rng, n, kinds=KINDS):
     return cases
 
 
+# ---------------------------------------------------------------- constructor and the public helper methods
+def suite_ctor_helpers(rng, n, kinds=KINDS):
+    cases = []
+    vals = [0.0, 1.0, 25.0, 7, -3.5, 1e-3, 4.166666666666667, 100, 0.5]
+    for i in range(n):
+        kind = kinds[i % len(kinds)]
+        if (i // len(kinds)) % 3 == 0:
+            c = {"op": "minit", "kind": kind}
+            for k in ("mu", "sigma", "beta", "kappa", "tau"):
+                c[k] = None if rng.random() < 0.5 else rng.choice(vals if k != "beta" else [v for v in vals if isinstance(v, float)])
+            c["gamma"] = None if rng.random() < 0.6 else rng.choice(gen.GAMMAS)
+            c["limit"] = rng.choice([None, True, False])
+            cases.append(c)
+        else:
+            st = gen.gen_state(rng)
+            shape = gen.gen_shape(rng)
+            nums = gen.gen_teams_num(rng, st, shape, ints=False)
+            nums = [[(mu, sg if sg > 0 else st["beta"]) for mu, sg in t] for t in nums]
+            ranks = ("N",)
+            if rng.random() < 0.7:
+                order = sorted(gen.random_weak_order(rng, len(shape)))      # as _compute passes them: sorted rank values
+                vals_, _ = gen.encode_order(rng, order)
+                ranks = ("L", vals_)
+            cases.append({"op": "helpers", "kind": kind, "beta": st["beta"], "teams": gen.rating_vals(kind, nums, rng), "ranks": ranks})
+    return cases
+
+
 # ---------------------------------------------------------------- order helpers
 def suite_order(rng, n, kinds=KINDS):
     cases = []
